@@ -26,6 +26,13 @@ type BEConfig struct {
 	EvictionNeeded []bool `json:"eviction_needed,omitempty"`
 	Stats          bool   `json:"stats,omitempty"`
 	Logger         bool   `json:"logger,omitempty"`
+	LogMask        int    `json:"log_mask,omitempty"` // shape of the logger, see shapeLogger
+	// HeapLimit / SysLimit: HeapInUseSoftLimit / SysMemSoftLimit. Only the values that do not depend on
+	// the real allocator are used: 0 (off), 1 (always exceeded), MaxUint64 (never exceeded).
+	HeapLimit uint64 `json:"heap_limit,omitempty"`
+	SysLimit  uint64 `json:"sys_limit,omitempty"`
+	// ItemsReportNs: ItemsCountReportInterval (0: far future).
+	ItemsReportNs int64 `json:"items_report_ns,omitempty"`
 }
 
 // BEOp is one backend operation.
@@ -41,10 +48,12 @@ type BEOp struct {
 
 // BEScenario is the backend engine's part of a scenario.
 type BEScenario struct {
-	Mode    string   `json:"mode"`    // seq | conc | ttl | janitor | evict
-	Backend string   `json:"backend"` // sharded | syncmap | shardedOf
-	Cfg     BEConfig `json:"cfg"`
-	Keys    [][]byte `json:"keys"`
+	Mode    string `json:"mode"`    // seq | conc | ttl | janitor | evict
+	Backend string `json:"backend"` // sharded | syncmap | shardedOf
+	// ValRep: representation of the values handed to the untyped backends (see valrep.go).
+	ValRep string   `json:"val_rep,omitempty"`
+	Cfg    BEConfig `json:"cfg"`
+	Keys   [][]byte `json:"keys"`
 	// Groups[i] is the collision group of key i (keys with equal xxhash64); -1: none.
 	Groups  []int    `json:"groups,omitempty"`
 	Clients [][]BEOp `json:"clients,omitempty"`
@@ -107,31 +116,43 @@ type beBackend struct {
 	raw         interface{}
 }
 
-func newBackend(kind string, cfg cache.Config) beBackend {
+func newBackend(kind string, cfg cache.Config) beBackend { return newBackendRep(kind, cfg, "") }
+
+func newBackendRep(kind string, cfg cache.Config, rep string) beBackend {
+	unwrapExpired := func(err error) (interface{}, time.Time, bool) {
+		v, at, ok := plainExpired(err)
+
+		return unwrapVal(v), at, ok
+	}
+
 	switch kind {
 	case "syncmap":
 		m := cache.NewSyncMap(cfg.Use)
 
 		return beBackend{
 			raw: m, wdr: m, dump: m.Dump, restore: m.Restore,
-			read:   func(ctx context.Context, k []byte) (interface{}, error) { return m.Read(ctx, k) },
-			write:  func(ctx context.Context, k []byte, v Tok) error { return m.Write(ctx, k, v) },
+			read: func(ctx context.Context, k []byte) (interface{}, error) {
+				v, err := m.Read(ctx, k)
+
+				return unwrapVal(v), err
+			},
+			write:  func(ctx context.Context, k []byte, v Tok) error { return m.Write(ctx, k, wrapVal(rep, v)) },
 			del:    m.Delete,
 			expAll: m.ExpireAll, delAll: m.DeleteAll, length: m.Len, stop: m.VerifStop,
 			walk: func(fn func(key []byte, v interface{}, exp time.Time) error) (int, error) {
 				return m.Walk(func(en cache.Entry) error {
 					zs.ReadAll(en, walkCopyLabel)
-					return fn(en.Key(), en.Value(), en.ExpireAt())
+					return fn(en.Key(), unwrapVal(en.Value()), en.ExpireAt())
 				})
 			},
 			// SyncMap has no Load/Store of its own: Read/Write with a background context.
 			load: func(k []byte) (interface{}, bool) {
 				v, err := m.Read(context.Background(), k)
 
-				return v, err == nil
+				return unwrapVal(v), err == nil
 			},
-			store:       func(k []byte, v Tok) { _ = m.Write(context.Background(), k, v) },
-			expiredItem: plainExpired,
+			store:       func(k []byte, v Tok) { _ = m.Write(context.Background(), k, wrapVal(rep, v)) },
+			expiredItem: unwrapExpired,
 		}
 	case "shardedOf":
 		m := cache.NewShardedMapOf[Tok](cfg.Use)
@@ -168,19 +189,27 @@ func newBackend(kind string, cfg cache.Config) beBackend {
 
 		return beBackend{
 			raw: m, wdr: m, dump: m.Dump, restore: m.Restore,
-			read:   func(ctx context.Context, k []byte) (interface{}, error) { return m.Read(ctx, k) },
-			write:  func(ctx context.Context, k []byte, v Tok) error { return m.Write(ctx, k, v) },
+			read: func(ctx context.Context, k []byte) (interface{}, error) {
+				v, err := m.Read(ctx, k)
+
+				return unwrapVal(v), err
+			},
+			write:  func(ctx context.Context, k []byte, v Tok) error { return m.Write(ctx, k, wrapVal(rep, v)) },
 			del:    m.Delete,
 			expAll: m.ExpireAll, delAll: m.DeleteAll, length: m.Len, stop: m.VerifStop,
 			walk: func(fn func(key []byte, v interface{}, exp time.Time) error) (int, error) {
 				return m.Walk(func(en cache.Entry) error {
 					zs.ReadAll(en, walkCopyLabel)
-					return fn(en.Key(), en.Value(), en.ExpireAt())
+					return fn(en.Key(), unwrapVal(en.Value()), en.ExpireAt())
 				})
 			},
-			load:        func(k []byte) (interface{}, bool) { return m.Load(k) },
-			store:       func(k []byte, v Tok) { m.Store(k, v) },
-			expiredItem: plainExpired,
+			load: func(k []byte) (interface{}, bool) {
+				v, ok := m.Load(k)
+
+				return unwrapVal(v), ok
+			},
+			store:       func(k []byte, v Tok) { m.Store(k, wrapVal(rep, v)) },
+			expiredItem: unwrapExpired,
 		}
 	}
 }
@@ -227,6 +256,12 @@ func (r *beRun) cacheConfig() cache.Config {
 		CountSoftLimit:           c.CountSoftLimit,
 		EvictFraction:            c.EvictFraction,
 		EvictionStrategy:         cache.EvictionStrategy(c.Strategy),
+		HeapInUseSoftLimit:       c.HeapLimit,
+		SysMemSoftLimit:          c.SysLimit,
+	}
+
+	if c.ItemsReportNs > 0 {
+		cfg.ItemsCountReportInterval = dur(c.ItemsReportNs)
 	}
 
 	if c.JanitorIntervalNs == 0 {
@@ -252,7 +287,7 @@ func (r *beRun) cacheConfig() cache.Config {
 	}
 
 	if c.Logger {
-		cfg.Logger = beLogger{r: r}
+		cfg.Logger = shapeLogger(beLogger{r: r}, c.LogMask)
 	}
 
 	return cfg
@@ -271,7 +306,7 @@ func (l beLogger) Important(_ context.Context, msg string, _ ...interface{}) { l
 
 func (r *beRun) construct() {
 	before := len(r.e.s.Tasks())
-	r.bk = newBackend(r.sc.Backend, r.cacheConfig())
+	r.bk = newBackendRep(r.sc.Backend, r.cacheConfig(), r.sc.ValRep)
 
 	stopped := false
 	stop := r.bk.stop
